@@ -1034,13 +1034,20 @@ impl<'de> serde::de::Visitor<'de> for DataVisitor<'_> {
                     // temporary public IDs are deserialized exactly
                     // as they were serialized. So if there were any gaps,
                     // we need to deserialize these too:
-                    if self.dataset.data_len() > handle + pre_length {
+                    if self.dataset.data_len() > handle.saturating_add(pre_length) {
                         return Err(serde::de::Error::custom(
                             "unable to resolve temporary public identifiers for annotation data",
                         ));
                     } else if handle > self.dataset.data_len() {
                         // expand the gaps, though this wastes memory if ensures that all references
                         // are valid without explicitly storing public identifiers.
+                        // (the number comes from the input: refuse it if that much can not be allocated)
+                        let gap = handle - self.dataset.data_len();
+                        self.dataset.data.try_reserve(gap).map_err(|_| {
+                            serde::de::Error::custom(
+                                "temporary public identifier for annotation data is too large",
+                            )
+                        })?;
                         self.dataset.data.resize_with(handle, Default::default);
                     }
                 }
